@@ -103,8 +103,9 @@ type Server struct {
 	ln      net.Listener
 	Path    string
 	accepts int
-	// Gate, when set, is called before each request is processed (deterministic scheduling).
-	Gate func(conn int, op string, key []byte)
+	// Gate, when set, is called before each request is processed (deterministic scheduling); the
+	// function it returns, if any, is called once the request has been executed.
+	Gate func(conn int, e *Entry) func()
 	// Delay before each response (used by batching tests)
 	closed bool
 }
@@ -338,8 +339,9 @@ func (s *Server) Serve(c net.Conn) {
 				e.Exptime = binary.BigEndian.Uint32(extras[0:4])
 			}
 		}
+		var gateDone func()
 		if g := s.Gate; g != nil {
-			g(id, e.Op, e.Key)
+			gateDone = g(id, &e)
 		}
 
 		s.mu.Lock()
@@ -364,6 +366,9 @@ func (s *Server) Serve(c net.Conn) {
 		}
 		s.log = append(s.log, e)
 		s.mu.Unlock()
+		if gateDone != nil {
+			gateDone()
+		}
 
 		if fk != nil && fk.Kind == FaultCutAfter {
 			w.Flush()
